@@ -15,7 +15,8 @@ FUNCS = ['androguard.core.analysis.analysis.Analysis.add', 'Analysis.create_xref
 # ------------------------------------------------------------------ the class model
 EXT_FIELDS = [('Ljava/lang/System;', 'out', 'Ljava/io/PrintStream;')]
 EXT_METHODS = [('Ljava/lang/Object;', '<init>', 'V', ()), ('Ljava/lang/String;', 'length', 'I', ()),
-               ('[I', 'clone', 'Ljava/lang/Object;', ()), ('[Ljava/lang/String;', 'clone', 'Ljava/lang/Object;', ())]
+               ('[I', 'clone', 'Ljava/lang/Object;', ()), ('[Ljava/lang/String;', 'clone', 'Ljava/lang/Object;', ()),
+               ('[[Ljava/lang/String;', 'clone', 'Ljava/lang/Object;', ()), ('[[[LB;', 'hashCode', 'I', ())]
 STRINGS = ['s-one', 's-two', '', ' ']
 TYPES = ['LB;', 'Ljava/lang/Object;', '[I', '[LB;', 'LA;', '[[LB;', '[[[Ljava/lang/String;', '[[J']
 
@@ -170,9 +171,11 @@ def mref(t):
     return '%s->%s(%s)%s' % (t[0], t[1], ' '.join(t[3]), t[2])
 
 
-def expected(operands):
-    """operands: slot index -> target identity tuple/string (resolved from the id tables).  Returns the parts of the
-    snapshot the properties speak about, for caller LA;->m1 and the fixed second caller LB;->h."""
+def expected(operands, opcodes=None):
+    """operands: slot index -> target identity tuple/string (resolved from the id tables); opcodes: slot index -> opcode
+    when it differs from the template.  Returns the parts of the snapshot the properties speak about, for caller
+    LA;->m1 and the fixed second caller LB;->h."""
+    opcodes = opcodes or {}
     offs, _ = slot_offsets()
     M1 = mref(('LA;', 'm1', 'V', ()))
     H = mref(('LB;', 'h', 'V', ()))
@@ -186,7 +189,9 @@ def expected(operands):
         if tab == 'm':
             calls.append(('LA;', M1, tg, off))
         elif tab == 'f':
-            (reads if kind in ('sget', 'iget', 'sget-object') else writes).append(('LA;', M1, tg, off))
+            o_ = opcodes.get(i, op)
+            is_read = 0x52 <= o_ <= 0x58 or 0x60 <= o_ <= 0x66          # iget* / sget* (Dalvik opcode table)
+            (reads if is_read else writes).append(('LA;', M1, tg, off))
         elif tab == 's':
             strings.append(('LA;', M1, tg, off))
         else:
@@ -298,7 +303,12 @@ def judge(which, snap, exp):
 
 # ------------------------------------------------------------------ symbolic overlay
 GROUPS = {'fields': [0, 1], 'fields2': [7, 10, 12], 'methods': [2, 3], 'methods2': [8, 11], 'methods3': [13, 2],
-          'strings+types': [4, 5, 6], 'jumbo+types': [9, 5]}
+          'strings+types': [4, 5, 6], 'jumbo+types': [9, 5], 'field opcode': [], 'field opcode 2': [], 'invoke opcode': [],
+          'invoke opcode 2': []}
+# groups whose symbolic quantity is the opcode byte of one slot: slot -> allowed opcodes
+OPGROUPS = {'field opcode': (7, list(range(0x52, 0x6e))), 'field opcode 2': (1, list(range(0x52, 0x6e))),
+            'invoke opcode': (3, list(range(0x6e, 0x73)) + list(range(0x74, 0x79))),
+            'invoke opcode 2': (8, list(range(0x6e, 0x73)) + list(range(0x74, 0x79)))}
 
 
 def overlay(blob, P, L, group, tag=''):
@@ -322,6 +332,12 @@ def overlay(blob, P, L, group, tag=''):
             e = bs[0].e | (bs[1].e << 8)
         pre.append(e < size)
         idx[i] = e
+    if group in OPGROUPS:
+        i, ops = OPGROUPS[group]
+        b = fresh_byte('%sop%d' % (tag, i))
+        items[ins0 + offs[i]] = b
+        pre.append(z3.Or([b.e == o for o in ops]))
+        idx['op%d' % i] = b.e
     return items, idx, pre
 
 
@@ -332,7 +348,7 @@ def resolve(P, i, k):
 
 def cross_region(idx, P):
     """a symbolic field operand of LA;->m1 selects a field that LB; defines"""
-    return z3.Or([e == k for i, e in idx.items() if SLOTS[i][3] == 'f'
+    return z3.Or([e == k for i, e in idx.items() if not isinstance(i, str) and SLOTS[i][3] == 'f'
                   for k, ff in enumerate(P.f_list) if tuple(ff) in DEFINED_FIELDS and ff[0] != 'LA;'] + [z3.BoolVal(False)])
 
 
@@ -372,6 +388,7 @@ def job(jc, spec):
 
     def ext(m):
         return dict(prop=which, group=group, idx={str(i): m.eval(e, model_completion=True).as_long() for i, e in idx.items()})
+    opslot = OPGROUPS[group][0] if group in OPGROUPS else None
     for pc, (kind, snap) in eng.explore(go, keep_pcs=True):
         jc.reached('explored')
         m = eng.solve(pc)
@@ -381,14 +398,14 @@ def job(jc, spec):
             jc.obligation(eng, pc, z3.BoolVal(False), ext, label=label, what='analysis raised %r' % (snap,))
             continue
         ops = {i: (resolve(P, i, vals[i]) if i in vals else DEFAULTS[i]) for i in range(len(SLOTS))}
-        bad_all = judge(which, snap, expected(ops))
+        bad_all = judge(which, snap, expected(ops, {opslot: vals['op%d' % opslot]} if opslot is not None else None))
         known = [b for b in bad_all if b.startswith(('ARRAY: ', 'CROSS: '))]
         bad = [b for b in bad_all if not b.startswith(('ARRAY: ', 'CROSS: '))]
         # the operands are pinned on the path by the table lookups (checked), so the concrete comparison covers the path
         jc.obligations(eng, pc, {'operands pinned on the path (harness)': pinned, 'cross references': z3.BoolVal(not bad)}, ext,
                        label=label, what='%s: ' + (bad[0] if bad else ''))
         if which == 'C13':
-            region = z3.Or([e == k for i, e in idx.items() if SLOTS[i][3] == 'm'
+            region = z3.Or([e == k for i, e in idx.items() if not isinstance(i, str) and SLOTS[i][3] == 'm'
                             for k, mm in enumerate(P.m_list) if prim_array(mm[0])] + [z3.BoolVal(False)])
             jc.obligation(eng, pc, z3.BoolVal(not known), ext, {'c13_primitive_array_receiver': region}, label=label + ':array receiver',
                           what=known[0] if known else '')
@@ -403,7 +420,8 @@ def job(jc, spec):
 def run(ctx, which):
     setup()
     ctx.functions_encoded = FUNCS
-    groups = {'C13': ['methods', 'methods2', 'methods3'], 'C14': ['fields', 'fields2'], 'C15': ['strings+types', 'jumbo+types']}[which]
+    groups = {'C13': ['methods', 'methods2', 'methods3', 'invoke opcode', 'invoke opcode 2'],
+              'C14': ['fields', 'fields2', 'field opcode', 'field opcode 2'], 'C15': ['strings+types', 'jumbo+types']}[which]
     ctx.bounds = dict(skeleton='2 classes (5 methods, 4 fields), 5 external members incl. array receivers, %d xref slots in LA;->m1' % len(SLOTS),
                       symbolic='the pool-index operands of the slots of one group at a time, each over its whole id table',
                       groups={g: [SLOTS[i][0] for i in GROUPS[g]] for g in groups})
@@ -424,6 +442,9 @@ def _concrete_snapshot(w):
     ins0 = L.insns_off[('LA;', 'm1')]
     b = bytearray(blob)
     for i, k in w.get('idx', {}).items():
+        if str(i).startswith('op'):
+            b[ins0 + offs[int(str(i)[2:])]] = int(k)
+            continue
         i = int(i)
         o = ins0 + offs[i] + 2
         n = 4 if SLOTS[i][0] == 'const-string/jumbo' else 2
@@ -447,8 +468,10 @@ def replay(w):
     except Exception as e:
         return True, 'analysis raised %r' % e
     ops = {i: (resolve(P, i, int(w['idx'][str(i)])) if str(i) in w['idx'] else DEFAULTS[i]) for i in range(len(SLOTS))}
-    bad = judge(w['prop'], snap, expected(ops))
-    desc = {SLOTS[int(i)][0]: resolve(P, int(i), int(k)) for i, k in w['idx'].items()}
+    opcodes = {int(i[2:]): int(k) for i, k in w['idx'].items() if str(i).startswith('op')}
+    bad = judge(w['prop'], snap, expected(ops, opcodes))
+    desc = {SLOTS[int(i)][0]: resolve(P, int(i), int(k)) for i, k in w['idx'].items() if not str(i).startswith('op')}
+    desc.update({'opcode of slot %d' % i: hex(k) for i, k in opcodes.items()})
     return bool(bad), 'operands %r: %s' % (desc, '; '.join(bad[:3]))
 
 
